@@ -40,6 +40,31 @@ DISCARD_OK = {
 }
 
 
+def is_restore(prog, f, arg, depth=0):
+    """is the position argument a value obtained from GetPosition() earlier (directly, through a named temporary, or through a parameter that
+    every caller fills that way)?"""
+    from bsv.expr import resolve
+    if arg is None or depth > 2:
+        return False
+    e = resolve(f, arg)
+    if e is None:
+        return False
+    if e['k'] == 'CXXMemberCallExpr' and (f.callee(e) or {}).get('n') == 'GetPosition':
+        return True
+    if e['k'] == 'DeclRefExpr' and e.get('dk') == 'ParmVar':
+        idx = [i for i, p_ in enumerate(f.params) if p_['d'] == e.get('d')]
+        if not idx:
+            return False
+        sites = []
+        for g in prog.funcs.values():
+            for x in g.walk():
+                if x['k'] in ('CallExpr', 'CXXMemberCallExpr') and (g.callee(x) or {}).get('id') == f.id:
+                    args = x['c'][1:]
+                    sites.append((g, args[idx[0]] if idx[0] < len(args) else None))
+        return bool(sites) and all(is_restore(prog, g, a, depth + 1) for g, a in sites)
+    return False
+
+
 def run(prog, rep):
     rep.rule('R3.1', 'failure-reporting results (SetPosition, ReadChunk, Write, Transcode) are consumed; tabled look-ahead / restore sites aside', floor=8)
     rep.rule('R3.2', 'seekg on the cached input stream is preceded by clear() of the end-of-file state', floor=1)
@@ -73,6 +98,9 @@ def run(prog, rep):
             site = '%s|in %s' % (q.rsplit('::', 2)[-2] + '::' + q.rsplit('::', 1)[-1], caller)
             if not discarded:
                 rep.ok('R3.1', site + '@%d' % n['l'], sample={'callee': q, 'caller': caller, 'result': 'consumed'} if 'SkipValueImpl' in caller else None)
+            elif q.endswith('::SetPosition') and is_restore(prog, f, n['c'][1] if len(n['c']) > 1 else None):
+                rep.ok('R3.1', site + '|restore', sample={'callee': q, 'caller': caller, 'result': 'discarded (restore of a position taken with GetPosition() earlier: '
+                       'a move back inside the cached chunk; a failure surfaces at the next read)'}, nontrivial=False)
             elif (q, caller) in DISCARD_OK:
                 rep.ok('R3.1', site + '|tabled', sample={'callee': q, 'caller': caller, 'result': 'discarded (tabled)', 'reason': DISCARD_OK[(q, caller)]}, nontrivial=False)
             else:
